@@ -46,4 +46,17 @@ theorem conforms_flags_map {α : Type} (l : List α) (al : α → List Flag) (fl
   simp only [conforms, Res.toObs]
   exact conformsList_map _ _ _ h
 
+/-- The decidable domain condition `hopsConsistent` gives the unbounded statement the theorems use. -/
+theorem hcons_of_consistent (lon lat hops : List V) (h : hopsConsistent lon lat hops = true) :
+    ∀ j, (getV lon j).isNone ∨ (getV lat j).isNone ∨ (getV lon (j + 1)).isNone ∨
+        (getV lat (j + 1)).isNone → getV hops j = none := by
+  intro j hj
+  by_cases hlt : j < hops.length
+  · unfold hopsConsistent at h
+    rw [List.all_eq_true] at h
+    have := h j (List.mem_range.2 hlt)
+    rcases hj with h1 | h1 | h1 | h1 <;> simp [h1] at this <;> exact this
+  · unfold getV
+    simp [List.getD, List.getElem?_eq_none (Nat.le_of_not_lt hlt)]
+
 end IoosQc
